@@ -93,6 +93,9 @@ type (
 
 		info       ClientInfo
 		statusFlag int32
+		// superseded is set, under the broker lock, when another connection takes over the
+		// client id: from then on nothing keyed by that id belongs to this connection.
+		superseded bool
 		writeCh    chan packets.ControlPacket
 		done       chan struct{}
 
@@ -293,11 +296,13 @@ func (c *Client) closeAndDelSession() {
 	topics, _, _ := c.session.allSubscribes()
 
 	// The session, its stored copy and the subscriptions are keyed by client id. When another
-	// connection has taken over the id they belong to that connection, so only the connection
-	// still registered under the id (or the last one, when nothing is registered any more) may
-	// remove them. The broker lock makes the test atomic with the takeover in handleConn.
+	// connection has taken over the id they belong to that connection - also after that
+	// connection has gone again and left its stored session behind - so a superseded connection
+	// never removes them; otherwise the connection still registered under the id (or the last
+	// one, when nothing is registered any more) does. The broker lock makes the test atomic
+	// with the takeover in handleConn.
 	c.broker.Lock()
-	if cur, ok := c.broker.clients[c.info.cid]; !ok || cur == c {
+	if cur, ok := c.broker.clients[c.info.cid]; !c.superseded && (!ok || cur == c) {
 		c.broker.sessMgr.delLocal(c.info.cid)
 		if c.session.cleanSession() {
 			c.broker.sessMgr.delDB(c.info.cid)
